@@ -89,25 +89,99 @@ def upward_exposed(stmts, candidates):
     return exposed
 
 
+class BreakSignal(Exception):
+    pass
+
+
+def _has_continue(st) -> bool:
+    """A `continue` belonging to the enclosing loop occurs in st (not inside a nested loop or function)."""
+    if isinstance(st, ast.Continue):
+        return True
+    if isinstance(st, (ast.For, ast.While, ast.FunctionDef, ast.Lambda, ast.ClassDef)):
+        return False
+    for ch in ast.iter_child_nodes(st):
+        if isinstance(ch, ast.stmt) and _has_continue(ch):
+            return True
+    return False
+
+
+def _desugar(stmts, rest):
+    """stmts followed by rest, with every `continue` of the enclosing loop turned into 'skip rest':
+    `if c: A; continue` + R  ==  `if c: A else: R`.  Returns None when a continue sits in a statement kind that is not an if."""
+    out = []
+    for i, st in enumerate(stmts):
+        if isinstance(st, ast.Continue):
+            return out
+        if _has_continue(st):
+            if not isinstance(st, ast.If):
+                return None
+            tail = _desugar(stmts[i + 1:], rest)
+            if tail is None:
+                return None
+            b = _desugar(st.body, tail)
+            e = _desugar(st.orelse, tail)
+            if b is None or e is None:
+                return None
+            new = ast.If(test=st.test, body=b or [ast.Pass()], orelse=e)
+            ast.copy_location(new, st)
+            for x in new.body:
+                if not hasattr(x, "lineno"):
+                    ast.copy_location(x, st)
+            out.append(new)
+            return out
+        out.append(st)
+    return out + list(rest)
+
+
+_BODY_CACHE = {}
+
+
+def loop_body(st):
+    """The loop body with its `continue` statements expressed as if/else nesting (cached per loop node)."""
+    r = _BODY_CACHE.get(id(st))
+    if r is not None and r[0] is st:
+        return r[1]
+    body = st.body
+    if any(_has_continue(x) for x in st.body):
+        d = _desugar(st.body, [])
+        if d is not None:
+            body = d or [ast.copy_location(ast.Pass(), st)]
+    _BODY_CACHE[id(st)] = (st, body)
+    return body
+
+
 class LoopMixin:
     # ------------------------------------------------------------------
     # for
     # ------------------------------------------------------------------
     def st_For(self, st, frame: Frame):
-        if st.orelse:
-            raise Unmodelled("for-else at %s" % frame.loc(st))
         it = self.force(self.eval(st.iter, frame), frame, st)
         items = self.as_items(it, frame, st) if not isinstance(it, ObjV) else None
+        body = loop_body(st)
         if items is not None and len(items) <= 16:
+            broke = False
             for x in items:
                 self.assign(st.target, x, frame)
-                self.exec_block(st.body, frame)
+                self.ctx.unrolled = getattr(self.ctx, "unrolled", 0) + 1
+                try:
+                    self.exec_block(body, frame)
+                except BreakSignal:
+                    broke = True
+                    break
+                finally:
+                    self.ctx.unrolled -= 1
+            if st.orelse and not broke:
+                self.exec_block(st.orelse, frame)
             return
+        if st.orelse:
+            raise Unmodelled("for-else at %s" % frame.loc(st))
         rec = LoopRec(st, frame)
         rec.kind = "for"
         self.ctx.loops.append(rec)
         lo, hi, idx, elem = self.iter_family(it, frame, st)
         rec.k, rec.lo, rec.hi, rec.n = idx, lo, hi, hi - lo
+        rec.iter_val, rec.elem = it, elem
+        rec.carried_before, rec.carried_after = {}, {}
         try:
             assigned = assigned_names(st.body)
             apps = appended_names(st.body)
@@ -135,16 +209,19 @@ class LoopMixin:
                 if cur is None:
                     continue
                 saved[name] = cur
+                rec.carried_before[name] = cur
                 if isinstance(cur, Num):
                     self._set_var(frame, name, Num(Rat.sym("#acc.%s" % name, ("bound",))))
                 else:
                     self._set_var(frame, name, Opaque("loop-carried %s" % name))
             self.assign(st.target, elem, frame)
             self.ctx.loop_stack.append(state)
+            saved_unrolled, self.ctx.unrolled = getattr(self.ctx, "unrolled", 0), 0
             try:
-                self.exec_block(st.body, frame)
+                self.exec_block(body, frame)
             finally:
                 self.ctx.loop_stack.pop()
+                self.ctx.unrolled = saved_unrolled
             self.ctx.assumptions.add("loop at %s executes at least once (its body is analysed as the inductive step)"
                                      % frame.loc(st))
             # close series
@@ -153,13 +230,14 @@ class LoopMixin:
             # accumulators
             for name, before in saved.items():
                 after = frame.lookup(name)
+                rec.carried_after[name] = after
                 if isinstance(before, Num) and isinstance(after, Num):
                     acc = poly.T.sym("#acc.%s" % name)
                     delta = after.r - Rat.atom(acc)
                     if acc.id in delta.deps():
                         self._set_var(frame, name, Opaque("loop-carried %s (non-additive)" % name))
                     else:
-                        if idx.id in delta.deps():
+                        if poly.mentions(delta, idx):
                             from .calls import canon_bound
                             ci, cb = canon_bound(idx, delta)
                             tot = Rat.atom(poly.T.app("fn", "SUM", (Rat.atom(ci), lo, hi, cb)))
@@ -358,10 +436,12 @@ class LoopMixin:
         rec.guard = g
         state = {"rec": rec, "k": None, "series": {}, "aug": {}, "while": True}
         self.ctx.loop_stack.append(state)
+        saved_unrolled, self.ctx.unrolled = getattr(self.ctx, "unrolled", 0), 0
         try:
-            self.exec_block(st.body, frame)
+            self.exec_block(loop_body(st), frame)
         finally:
             self.ctx.loop_stack.pop()
+            self.ctx.unrolled = saved_unrolled
         for name in carried:
             rec.transfer[name] = frame.lookup(name)
         for name in assigned - set(carried):
